@@ -381,6 +381,7 @@ func (ex *Exec) havocCall(p *Path, fn *types.Func, mayWriteHeap bool) []Value {
 	sig := fn.Type().(*types.Signature)
 	ex.havocked[fn.FullName()] = true
 	if mayWriteHeap && !ex.isObserverPkg(fn) {
+		ex.havocWhy = append(ex.havocWhy, "call to "+shortKey(fn)+" (no contract, body not inlined)")
 		ex.havocMutableHeap(p)
 	}
 	var out []Value
@@ -880,6 +881,7 @@ func (ex *Exec) applyContract(p *Path, c *Contract, fn *types.Func, recv *Value,
 	}
 	for _, m := range c.Modifies {
 		if m == "*" {
+			ex.havocWhy = append(ex.havocWhy, "call to "+c.Key+" (modifies *)")
 			ex.havocMutableHeap(p)
 			continue
 		}
@@ -905,6 +907,7 @@ func (ex *Exec) applyContract(p *Path, c *Contract, fn *types.Func, recv *Value,
 		}
 	}
 	// the callee may allocate
+	nowBefore := p.now
 	if !c.Pure && ex.quantFacts == nil {
 		ex.advanceClock(p)
 	}
@@ -935,6 +938,10 @@ func (ex *Exec) applyContract(p *Path, c *Contract, fn *types.Func, recv *Value,
 			if named, ok := types.Unalias(ptr.Elem()).(*types.Named); ok {
 				if _, isStruct := named.Underlying().(*types.Struct); isStruct && ex.isMutableKey(ex.heapKey(named, "x")) {
 					ex.havocObject(p, v, pos)
+					if ex.quantFacts == nil && ex.contractMode == 1 {
+						// a result object the contract does not declare `existing` was allocated by the call
+						p.Assume("(or (= " + v.T + " null) (>= (" + ex.birthFun() + " " + v.T + ") " + nowBefore + "))")
+					}
 					if !c.Pure && ex.quantFacts == nil {
 						for _, a := range p.allocs {
 							p.Assume("(not (= " + v.T + " " + a + "))")
